@@ -153,8 +153,8 @@ func init() {
 		reg(&HarnessSpec{Prop: pr, Name: "C06Shapes", What: whatShapes, Bounds: "skeleton shapes; 86 x 13 notation pairs", Assumes: []string{aT, aSlots, "$n denotes the n-th method argument ($1 the source, $2 the first additional argument), as in the README example and the pinned fixture usecase/maps"}})
 	}
 	reg(&HarnessSpec{Prop: "C19", Name: "C06Shapes",
-		What:    "for C19's ':map/:conv paths always compare case-sensitively': at the place where the builder USES the matchers (matchStructFieldAndStruct, notationTargetsMemberOf) a :literal / :conv / :map whose destination differs from a field's path only in letter case addresses nothing, also under :case:off - a value only the notation can supply appears on exactly the path the notation names (see C06Shapes; menu entries ':literal name', ':conv Up Extra name', ':literal in.b', ':map Extra name' x ':case:off')",
-		Bounds:  "skeleton shapes; 86 x 13 notation pairs", Assumes: []string{aT, aSlots}})
+		What:   "for C19's ':map/:conv paths always compare case-sensitively': at the place where the builder USES the matchers (matchStructFieldAndStruct, notationTargetsMemberOf) a :literal / :conv / :map whose destination differs from a field's path only in letter case addresses nothing, also under :case:off - a value only the notation can supply appears on exactly the path the notation names (see C06Shapes; menu entries ':literal name', ':conv Up Extra name', ':literal in.b', ':map Extra name' x ':case:off')",
+		Bounds: "skeleton shapes; 86 x 13 notation pairs", Assumes: []string{aT, aSlots}})
 	for _, pr := range []string{"C05", "C01"} {
 		reg(&HarnessSpec{Prop: pr, Name: "C05SameName", What: "the same coverage/visibility/type-check obligations where the setup package and the imported package share their package NAME (visibility must be decided by import path)", Bounds: "skeleton samename, 2 methods", Assumes: []string{aT}})
 	}
